@@ -41,6 +41,8 @@ int  sched_thread_why(int tid);
 int  sched_unjoined_lib_threads(void);
 void sched_set_stall(int permille, int64_t max_us);   /* probability (per scheduling point) and bound of a "slow machine" clock step */
 long sched_stalls(void);
+void sched_set_spurious(int permille);                 /* probability of a spurious wake-up per condition wait */
+long sched_spurious_wakeups(void);
 int64_t sched_stall_total_us(void);
 int64_t sched_thread_deadline(int tid);               /* virtual deadline of a blocked thread, -1 = none */
 int  sched_thread_is_lib(int tid);
